@@ -69,6 +69,12 @@ func VerifC15FailuresV1() {
 	before := vScanV1(c)
 	before2 := scan2()
 	tbl := aws.String(vTbl)
+	switch nd.Choice("already-active", 3) {
+	case 1:
+		EmulateFailure(c, FailureConditionInternalServerError)
+	case 2:
+		ActiveForceFailure(c)
+	}
 	internal := false
 	switch nd.Choice("condition", 3) {
 	case 0:
